@@ -70,4 +70,18 @@ META.update({
   "technique": "runtime monitoring: exact reloaded-set oracle from the reference model over enumerated recipe nestings and single-entry edits",
  },
 })
+META.update({
+ "C08": {
+  "text": "Bounded-progress form of the liveness claim: in every produced execution every hot_reload() call returned, the process did not die, and no state was reached where a caller sleeps inside hot_reload while the reloader thread sleeps too (or is gone) with no CPU use and no completed call for 1.2 s. Configurations: 1-16 concurrent callers x 0-4 loader/get_or_insert threads x event bursts (tens of thousands of calls), each caller checking right after return that the reload it asked for is done, plus dependency shapes whose recorded graph is cyclic (mutual get_cached, self look-up, 3-cycle, mutual under a common parent); std locks and parking_lot; every configuration in a child process with a /proc observer.",
+  "design_ref": "DESIGN.md §5 C08, §3.9, §3.10",
+  "note": "Unbounded 'always returns' cannot be decided by a finite run; a parent wall-clock watchdog expiry is inconclusive. Callers wait for the event barrier by spinning, so a waiting caller never looks blocked.",
+  "technique": "runtime monitoring: stress in child processes with a /proc-based deadlock/crash observer and a per-call postcondition",
+ },
+ "C15": {
+  "text": "create / use / drop sequences of 1-32 caches over in-memory sources (sender kept by the source, by the harness, dropped), a custom source and the real FileSystem source, dropped idle / right after hot_reload / with events queued / right after loads; /proc/self/task gives, for the assets_hot_reload threads attributed to the caches by tid difference, existence, state and CPU ticks: a violation needs positive evidence (>= 20 % of a CPU while idle, or still existing and spinning over three windows after the drop). 15-50 create/drop cycles show that threads and load do not accumulate. Under Miri the release of the reloader's clone of the source is the logical signal.",
+  "design_ref": "DESIGN.md §5 C15, §3.9",
+  "note": "'Sleeps for good' cannot be refuted finitely and is accepted; notify's own inotify thread is not judged. CPU-time based, so a loaded machine cannot turn a sleeping thread into a violation.",
+  "technique": "runtime monitoring: /proc thread-state and CPU-time observer over create/use/drop sequences",
+ },
+})
 NOT_BUILT = {}
